@@ -17,6 +17,12 @@ Proof. reflexivity. Qed.
 Lemma blocked_sleep_cur tk s : blocked_sleep tk = Some s -> t_cur tk = Some (AwSleep s).
 Proof. unfold blocked_sleep. destruct (t_cur tk) as [[]|]; try discriminate. intros H; injection H as ->; reflexivity. Qed.
 
+Lemma apply_ops_rest_nw ops : forall dr, next_wakeup (apply_ops ops dr) = next_wakeup dr /\ scheduled (apply_ops ops dr) = scheduled dr.
+Proof.
+  unfold apply_ops. induction ops as [|o r IH]; intros dr; cbn [fold_left]; [split; reflexivity|].
+  destruct (IH (apply_op dr o)) as [H1 H2]. destruct (apply_op_rest dr o) as [E1 E2]. rewrite H1, H2, E1, E2. split; reflexivity.
+Qed.
+
 Lemma q_add_alllive id d' p : (forall d es, In (d, es) p -> es <> []) ->
   forall d es, In (d, es) (q_add id d' p) -> es <> [].
 Proof.
@@ -33,7 +39,7 @@ Qed.
 
 Section PollStep.
   Variables (ts0 ts : list task) (own : wakers) (nid : N) (dr : driver) (t m : N) (k : nat) (r : list nat).
-  Variables (tk tk0 : task) (L : list N) (Sx : list step) (o : list N) (b : option (sleep * list step)) (n : N).
+  Variables (tk tk0 : task) (L : list N) (Sx : list step) (o : list N) (b : option (sleep * list step)) (n : N) (dr' : driver).
   Variable before : list N.
 
   Hypothesis Hbase : Base ts0 ts own nid.
@@ -46,14 +52,14 @@ Section PollStep.
   Hypothesis Hmod0 : t_mod tk = t_mod tk0.
   Hypothesis Hst0 : t_start tk = t_start tk0.
   Hypothesis HS : Forall frag_step Sx.
-  Hypothesis Hrun : frag_run t nid Sx = (o, b, n).
+  Hypothesis Hrun : frag_run t nid Sx dr = (o, b, n, dr').
+  Hypothesis Hfr : forall x id, In id (ents_at x (pending dr)) -> id < nid.
   Hypothesis Hexp : expected tk0 = L ++ exp_run t Sx.
 
   Let tk' := {| t_mod := t_mod tk; t_start := t_start tk; t_steps := fr_steps b; t_cur := fr_cur b; t_iv := None;
                 t_log := L ++ o; t_fin := match fr_steps b with [] => true | _ => false end |}.
   Let ts' := set_nth k tk' ts.
   Let own' := note_polls true k before (held_sleeps (fr_cur b) None ++ []) own.
-  Let dr' := fr_drv b dr.
 
   Lemma ps_cases : nid <= n /\
     ((b = None /\ exp_run t Sx = o) \/
@@ -61,10 +67,17 @@ Section PollStep.
         exp_run t Sx = o ++ deadline s :: exp_run (deadline s) rest /\
         t < deadline s /\ handle s = Some (deadline s) /\ nid <= sid s /\ sid s < n).
   Proof.
-    pose proof (frag_run_spec t Sx HS nid) as H. rewrite Hrun in H. revert H. generalize b. intros b0 [Hn Hb].
+    pose proof (frag_run_spec t Sx HS nid dr Hmid Hfr) as H. rewrite Hrun in H. revert H. generalize b. intros b0 (Hn & _ & _ & Hb).
     split; [exact Hn|]. destruct b0 as [[s l]|]; [right|left; split; [reflexivity|exact Hb]].
     destruct Hb as (st & rest & -> & H). exists s, st, rest. split; [reflexivity|exact H].
   Qed.
+
+  Lemma ps_acts : acts t dr dr'.
+  Proof. pose proof (frag_run_spec t Sx HS nid dr Hmid Hfr) as H. rewrite Hrun in H. exact (proj1 (proj2 H)). Qed.
+
+  Lemma ps_ents x : ents_at x (pending dr') =
+    ents_at x (pending dr) ++ match b with Some (s, _) => if x =? deadline s then [sid s] else [] | None => [] end.
+  Proof. pose proof (frag_run_spec t Sx HS nid dr Hmid Hfr) as H. rewrite Hrun in H. exact (proj1 (proj2 (proj2 H)) x). Qed.
 
   Lemma ps_own : own' = match b with Some (s, _) => (sid s, k) :: own | None => own end.
   Proof.
@@ -121,56 +134,40 @@ Section PollStep.
   Qed.
 
   Lemma ps_mid : Mid t dr'.
-  Proof.
-    unfold dr'. destruct ps_cases as (_ & [(Eb & _)|(s & st & rest & Eb & _ & _ & Ht & _)]); rewrite Eb; cbn [fr_drv]; [exact Hmid|].
-    apply (apply_op_mid t dr (Register (sid s) (deadline s)) Hmid). exact Ht.
-  Qed.
+  Proof. exact (acts_mid _ _ _ ps_acts Hmid). Qed.
 
   Lemma ps_tie : Tie ts' own' n r m dr'.
   Proof.
     destruct Htie as [He Ht].
     assert (Hkr : ~ In k r) by (inversion Hnd; assumption).
     constructor.
-    - intros k' tk1 s Hk' Hbl Hm Hq. destruct (Nat.eq_dec k' k) as [->|Hne].
+    - intros k' tk1 s Hk' Hbl Hm Hq. rewrite ps_ents. destruct (Nat.eq_dec k' k) as [->|Hne].
       + rewrite ps_nth_same in Hk'. injection Hk' as <-. destruct (ps_blocked' s Hbl) as (st & rest & Eb & _).
-        unfold dr'. rewrite Eb. cbn [fr_drv register set_pending pending].
-        rewrite (ents_at_add _ _ _ _ (mid_sorted _ _ Hmid)), N.eqb_refl. apply in_or_app. right. left. reflexivity.
-      + rewrite (ps_nth_other k' Hne) in Hk'.
-        assert (Hold : In (sid s) (ents_at (deadline s) (pending dr))).
-        { apply (He k' tk1 s Hk' Hbl Hm). intros [E|E]; [apply Hne; symmetry; exact E|exact (Hq E)]. }
-        unfold dr'. destruct ps_cases as (_ & [(Eb & _)|(s' & st & rest & Eb & _)]); rewrite Eb;
-          cbn [fr_drv register set_pending pending]; [exact Hold|].
-        apply ents_at_add_keeps; [exact (mid_sorted _ _ Hmid)|exact Hold].
-    - intros d id Hin.
-      assert (Hcase : In id (ents_at d (pending dr)) \/ exists s st rest, b = Some (s, st :: rest) /\ id = sid s /\ d = deadline s).
-      { unfold dr' in Hin. destruct ps_cases as (_ & [(Eb & _)|(s & st & rest & Eb & _)]); rewrite Eb in Hin;
-          cbn [fr_drv register set_pending pending] in Hin; [left; exact Hin|].
-        rewrite (ents_at_add _ _ _ _ (mid_sorted _ _ Hmid)) in Hin. destruct (d =? deadline s) eqn:E; [|left; exact Hin].
-        apply in_app_or in Hin. destruct Hin as [Hin|[<-|[]]]; [left; replace d with (deadline s) by lia; exact Hin|].
-        right. exists s, st, rest. repeat split; [exact Eb|lia]. }
-      destruct Hcase as [Hold|(s & st & rest & Eb & -> & ->)].
+        rewrite Eb, N.eqb_refl. apply in_or_app. right. left. reflexivity.
+      + rewrite (ps_nth_other k' Hne) in Hk'. apply in_or_app. left.
+        apply (He k' tk1 s Hk' Hbl Hm). intros [E|E]; [apply Hne; symmetry; exact E|exact (Hq E)].
+    - intros d id Hin. rewrite ps_ents in Hin. apply in_app_or in Hin. destruct Hin as [Hold|Hnew].
       + destruct (Ht d id Hold) as (k' & tk1 & s & Hk' & Hbl & Hm & Hq & E1 & E2).
         assert (Hne : k' <> k) by (intros ->; apply Hq; left; reflexivity).
         exists k', tk1, s. rewrite (ps_nth_other k' Hne). repeat split; try assumption.
         intros E; apply Hq; right; exact E.
-      + exists k, tk', s. rewrite ps_nth_same. unfold tk', blocked_sleep. cbn [t_cur t_mod]. rewrite Eb. cbn [fr_cur].
-        repeat split; try assumption; reflexivity.
+      + destruct ps_cases as (_ & [(Eb & _)|(s & st & rest & Eb & _)]); rewrite Eb in Hnew; [contradiction|].
+        destruct (d =? deadline s) eqn:E; [|contradiction]. destruct Hnew as [<-|[]].
+        exists k, tk', s. rewrite ps_nth_same. unfold tk', blocked_sleep. cbn [t_cur t_mod]. rewrite Eb. cbn [fr_cur].
+        repeat split; try assumption; try reflexivity. lia.
+  Qed.
+
+  Lemma ps_live : NwLive dr -> NwLive dr'.
+  Proof.
+    intros Hn w0 Hw. destruct ps_acts as (ops & _ & Eq). rewrite Eq in Hw.
+    rewrite (proj1 (apply_ops_rest_nw ops dr)) in Hw. pose proof (Hn w0 Hw) as Hne.
+    rewrite ps_ents. intros Hc. apply app_eq_nil in Hc. exact (Hne (proj1 Hc)).
   Qed.
 
   Lemma ps_spawned : ~ unspawned tk'.
   Proof.
     unfold tk', unspawned. cbn [t_cur t_fin].
     destruct ps_cases as (_ & [(Eb & _)|(s & st & rest & Eb & _)]); rewrite Eb; cbn [fr_cur fr_steps]; intros [H1 H2]; discriminate.
-  Qed.
-
-  Lemma ps_live : NwLive dr /\ AllLive dr -> NwLive dr' /\ AllLive dr'.
-  Proof.
-    intros [Hn Ha]. unfold dr'. destruct ps_cases as (_ & [(Eb & _)|(s & st & rest & Eb & _)]); rewrite Eb; cbn [fr_drv]; [split; assumption|].
-    split.
-    - intros w0 Hw. cbn [register set_pending next_wakeup pending] in *.
-      rewrite (ents_at_add _ _ _ _ (mid_sorted _ _ Hmid)). pose proof (Hn w0 Hw) as Hne.
-      destruct (w0 =? deadline s) eqn:E; [|exact Hne]. intros Hc. apply app_eq_nil in Hc. destruct Hc as [_ Hc]. discriminate.
-    - intros d es Hin. cbn [register set_pending pending] in Hin. exact (q_add_alllive _ _ _ Ha d es Hin).
   Qed.
 
   Lemma ps_runnable k' : In k' r -> runnable ts t m k' -> runnable ts' t m k'.
@@ -195,15 +192,18 @@ Proof.
   - fold (work r) in *. fold (work (set_nth k tk' r)). pose proof (IH k tk tk' Hk). lia.
 Qed.
 
-Lemma frag_run_len now steps : forall nid, (length (fr_steps (snd (fst (frag_run now nid steps)))) <= length steps)%nat.
+Lemma frag_run_len now steps : forall nid dr, (length (fr_steps (snd (fst (fst (frag_run now nid steps dr))))) <= length steps)%nat.
 Proof.
-  induction steps as [|st r IH]; intros nid; cbn [frag_run]; [cbn; lia|].
+  induction steps as [|st r IH]; intros nid dr; cbn [frag_run]; [cbn; lia|].
   destruct st; cbn [fst snd fr_steps length]; try lia.
   - destruct (now <? dl_of now (SSleep d)); cbn [fst snd fr_steps length]; [lia|].
-    specialize (IH (nid + 1)). destruct (frag_run now (nid + 1) r) as [[o b] n]. cbn [fst snd] in *. lia.
+    specialize (IH (nid + 1) (prep_drv now nid (SSleep d) dr)). destruct (frag_run now (nid + 1) r _) as [[[o b] n] d']. cbn [fst snd] in *. lia.
   - destruct (now <? dl_of now (SSleepUntil t)); cbn [fst snd fr_steps length]; [lia|].
-    specialize (IH (nid + 1)). destruct (frag_run now (nid + 1) r) as [[o b] n]. cbn [fst snd] in *. lia.
-  - specialize (IH nid). destruct (frag_run now nid r) as [[o b] n]. cbn [fst snd] in *. lia.
+    specialize (IH (nid + 1) (prep_drv now nid (SSleepUntil t) dr)). destruct (frag_run now (nid + 1) r _) as [[[o b] n] d']. cbn [fst snd] in *. lia.
+  - destruct (now <? dl_of now (SReset polled d1 d2)); cbn [fst snd fr_steps length]; [lia|].
+    specialize (IH (nid + 1) (prep_drv now nid (SReset polled d1 d2) dr)). destruct (frag_run now (nid + 1) r _) as [[[o b] n] d']. cbn [fst snd] in *. lia.
+  - specialize (IH (nid + 1) (prep_drv now nid (SDropSleep d) dr)). destruct (frag_run now (nid + 1) r _) as [[[o b] n] d']. cbn [fst snd] in *. lia.
+  - specialize (IH nid dr). destruct (frag_run now nid r dr) as [[[o b] n] d']. cbn [fst snd] in *. lia.
 Qed.
 
 (* ---- inside an event of module m at instant t, with [q] still to be polled ---- *)
@@ -214,7 +214,7 @@ Record MInv (ts0 : list task) (t m : N) (q : list nat) (w : world) : Prop := {
   mi_run : forall k, In k q -> runnable (w_tasks w) t m k;
   mi_mid : Mid t (drv_of w m);
   mi_tie : Tie (w_tasks w) (w_owner w) (w_nid w) q m (drv_of w m);
-  mi_live : NwLive (drv_of w m) /\ AllLive (drv_of w m) }.
+  mi_live : NwLive (drv_of w m) }.
 
 Lemma poll_task_eq wfix now m k w tk steps cur iv dr nid lg sw mail :
   nth_error (w_tasks w) k = Some tk -> t_fin tk = false ->
@@ -283,10 +283,13 @@ Proof.
       + unfold wt. rewrite H3. cbn [length]. lia.
       + apply run_steps_woken. lia. }
   destruct Hgen as (L & Sx & HS & Hexp & Hfin & Hm0 & Hs0 & Hwt & Hrs).
-  rewrite (run_steps_frag t m k Sx HS) in Hrs. destruct (frag_run t (w_nid w) Sx) as [[o b] n] eqn:Efr.
+  rewrite (run_steps_frag t m k Sx HS) in Hrs. destruct (frag_run t (w_nid w) Sx (drv_of w m)) as [[[o b] n] dr'] eqn:Efr.
+  assert (Hfr : forall x id, In id (ents_at x (pending (drv_of w m))) -> id < w_nid w).
+  { intros x id Hin. destruct (tie_task _ _ _ _ _ _ Htie x id Hin) as (k' & tk' & s' & Hk' & Hbl' & _ & _ & E1 & _).
+    rewrite <- E1. exact (proj1 (b_ids _ _ _ _ Hbase k' tk' s' Hk' Hbl')). }
   destruct (poll_task_eq true t m k w tk _ _ _ _ _ _ _ _ Hk Hfin Hrs) as (Hsw & Hfes & Hnow & Hdr & Hoth & Htasks & Hnid & Hown & Hml).
   assert (Hnn : w_nid w <= n).
-  { exact (proj1 (ps_cases _ _ _ _ _ _ HS Efr)). }
+  { exact (proj1 (ps_cases _ _ _ _ _ _ _ _ Hmid HS Efr Hfr)). }
   split; [exact Hsw|]. split; [|repeat split; try assumption].
   - constructor.
     + exact Hml.
@@ -310,7 +313,7 @@ Proof.
     pose proof (work_set_nth (w_tasks w) k tk tk' Hk) as Hw.
     assert (Hns : ~ unspawned tk') by (eapply ps_spawned; eassumption).
     assert (Hwt' : (wt tk' <= length Sx)%nat).
-    { pose proof (frag_run_len t Sx (w_nid w)) as Hl. rewrite Efr in Hl. cbn [fst snd] in Hl.
+    { pose proof (frag_run_len t Sx (w_nid w) (drv_of w m)) as Hl. rewrite Efr in Hl. cbn [fst snd] in Hl.
       unfold wt. unfold unspawned in Hns. cbn [tk' t_steps t_cur t_fin] in *.
       destruct (fr_cur b); [lia|]. destruct (match fr_steps b with [] => true | _ :: _ => false end); [lia|].
       exfalso. apply Hns. split; reflexivity. }
